@@ -13,7 +13,15 @@ Cascade with a stabilization, development and hotfix branch, queues on / off; th
 on the tip of the branch (= a deletion that was interrupted between the push of the tag and the removal of the
 branch) / on another commit; then the real `delete_branch` job runs (with the same interleavings and refusals as
 every job) and its ordered remote operations are compared with `C08 opst <none|tip|other>` — full job / deletion
-completed without a second tag / nothing at all —, the oracle demanding a tag ON THE DELETED TIP."""
+completed without a second tag / nothing at all —, the oracle demanding a tag ON THE DELETED TIP.
+
+Fault block (every run, harness/c08_faults.py): short histories in which a first job fills the mirror cache, a
+colleague then creates a branch and / or pushes to a branch that is not Bert-E's, and a job follows that ends in a
+pruning push (merge, queue merge, reset, decline, rebuild / delete queues); ONE git command that the job issues
+before its last push (cache refresh, clones, `remote update`, `ls-remote`, checkouts, merges ...) fails once with
+CommandError. Oracle on the real remote: what is not w/, q/, tmp/ and existed BEFORE the job is still there, not
+rewound (destinations: fast-forward only). Nobody acts during these jobs: a failure there is not one of the two
+races recorded as known findings and has its own keys (`transient-git-failure/...`)."""
 import json
 import os
 import re
@@ -53,6 +61,8 @@ TRUSTED = [
     'precedes `archived = True`: rev-list of the tag compared with the tip of the checked-out branch, else raise)',
     'harness/histories.py, harness/system.py (generator, mock git host, real git), harness/c08.py (fork/snapshot scheduler, '
     'wrapper around bert_e.lib.git.cmd that recognises `git push`)',
+    'harness/c08_faults.py (second wrapper around bert_e.lib.git.cmd: numbers the git commands of a job and raises CommandError '
+    'for one of them, once; a transient failure is modelled as "the command did not run and reported an error")',
 ]
 FINDING_KEY = 'prune-deletes-concurrently-created-branch'
 JOB_OPS = ('progress', 'eval_pr', 'eval_commit', 'job')
@@ -680,7 +690,14 @@ RULE = ('seeded histories of C01 (8 cascade templates x queue / queue+skip / no 
         'with the model (full job / deletion completed without a second tag / refused); oracles after every '
         'job: destinations fast-forward only / deleted only by delete_branch with an archive tag on the tip; foreign refs as the '
         'third party left them; no forcing token in any `git push` argv; old destination tips reachable from branches and tags; '
-        'distinct = (action, job status, next pushes) classes of interleavings + histories in which Bert-E pushed')
+        'distinct = (action, job status, next pushes) classes of interleavings + histories in which Bert-E pushed; '
+        'fault block: 7 scripted histories (first job fills the mirror cache; a colleague creates a branch / pushes to an '
+        'existing foreign branch / both; then merge without queue, direct merge with skip_queue, queue merge, reset, decline, '
+        'rebuild_queues, delete_queues = a job ending in `push --all --atomic --prune`) + seeded ones; for the selected jobs '
+        'ONE git command issued before the last push fails once with CommandError (quick: every command of the clone phase and '
+        'the first occurrence of every other command up to name classes; thorough: every command), the event is re-delivered '
+        'after a fault in the cache / clone commands; oracle: every branch outside w/ q/ tmp/ that existed before the job is '
+        'still there and not rewound, destinations fast-forward only')
 
 
 def collect(res, outs):
@@ -749,13 +766,17 @@ def correspondence(ctx):
     base = common.scratch()
     use_model = ctx.model is not None
     outs = replay_corpus(use_model, base)
+    from . import c08_faults
     with Pool(common.NCPU) as pool:
+        faults = c08_faults.submit(pool, ctx, base)
         scripted = pool.map_async(_work_scripted, [(k, use_model, base) for k in range(len(scripted_cases()))],
                                   chunksize=1)
         rnd = pool.map(_work, [(ctx.seed, i, use_model, base, None, ctx.tier != 'quick') for i in range(n)],
                        chunksize=1)
         outs += scripted.get() + rnd
+        fault_outs = faults.get()
     res = collect(res, outs)
+    c08_faults.collect(res, fault_outs)
     # the git rules behind "every update is a fast-forward" (a non-forced push accepts creations and fast-forwards
     # only, `--prune` deletes what has no local counterpart), against Bert-E's git layer on real git
     from . import gittie
@@ -770,6 +791,11 @@ def replay(ctx, payload):
     if g is not None:
         return gittie.replay(ctx, Result(), g, oracles=('ff',))
     inp = payload['failure']['input'] if 'failure' in payload else payload['input']
+    from . import c08_faults
+    if c08_faults.is_fault_input(inp):
+        res = c08_faults.replay(ctx, inp)
+        res.rule = RULE
+        return res
     cfgd = dict(inp['cfg'])
     cfg = Config(cfgd.pop('dests'), **cfgd)
     out, jobs, sched, na, nb, dis = run_one(cfg, inp['events'], ctx.model is not None, common.scratch(), refuse_all=True)
